@@ -711,11 +711,15 @@ class RewriteRuleSet:
                         continue
                     initializers = graph_or_function.initializers
                     for initializer in delta.new_initializers:
-                        if initializer.name in initializers:
+                        if initializers.get(initializer.name) not in (None, initializer):
+                            # Do not displace an initializer that is still in use
+                            # (e.g. one created by an earlier application of the rule).
                             if verbose:
                                 print(f"Initializer {initializer.name} already exists.")
-                            continue
-                    for initializer in delta.new_initializers:
+                            suffix = 1
+                            while f"{initializer.name}_{suffix}" in initializers:
+                                suffix += 1
+                            initializer.name = f"{initializer.name}_{suffix}"
                         initializers[initializer.name] = initializer  # type: ignore[index]
                 # TODO: This does not yet handle the problem of determining the correct insertion point
                 # for inserted nodes in the case of patterns with multiple output-nodes. The following
